@@ -40,14 +40,16 @@ type node struct {
 type openSet struct {
 	items *list.List
 
-	// done contains a map of targets we've already processed.
-	done map[core.BuildLabel]struct{}
+	// done contains a map of targets we've already queued, with the smallest depth we've found them at.
+	done map[core.BuildLabel]int
 }
 
 // Push implements pushing a node onto the queue of nodes to process, deduplicating nodes we've seen before.
+// A node is queued again if we find it at a smaller depth than before; that happens when a rule is reached
+// via some other rule first and then, at no cost, via one of its own hidden targets.
 func (os *openSet) Push(n *node) {
-	if _, present := os.done[n.target.Label]; !present {
-		os.done[n.target.Label] = struct{}{}
+	if depth, present := os.done[n.target.Label]; !present || n.depth < depth {
+		os.done[n.target.Label] = n.depth
 		os.items.PushBack(n)
 	}
 }
@@ -99,7 +101,7 @@ func newRevdeps(graph *core.BuildGraph, hidden, followSubincludes, includeSubrep
 		followSubincludes: followSubincludes,
 		os: &openSet{
 			items: list.New(),
-			done:  map[core.BuildLabel]struct{}{},
+			done:  map[core.BuildLabel]int{},
 		},
 		hidden:   hidden,
 		maxDepth: maxDepth,
